@@ -8,7 +8,7 @@ CONSTANTS
   NoIslands = FALSE
   InitVals <- Init_Real1
   Kinds <- KindsM
-VIEW ViewNoEv
+VIEW ViewRet
 INVARIANT TypeOK
 INVARIANT CyclesClosed
 INVARIANT NoMixedCoupling
